@@ -2,6 +2,7 @@ package c04
 
 import (
 	"bytes"
+	"encoding/json"
 	"fmt"
 	"math"
 	"sort"
@@ -66,6 +67,9 @@ func plain(v core.V) interface{} {
 		return v["v"].(bool)
 	case "int":
 		return toInt(v["v"])
+	case "bigint":
+		// up to 2^53 in absolute value: exactly representable in JavaScript
+		return json.Number(v["v"].(string))
 	case "float":
 		return float64(toInt(v["num"])) / math.Pow(2, float64(toInt(v["sh"])))
 	case "str":
